@@ -3,6 +3,8 @@ package main
 // The property check driver: govc check -prop C07 [-tier quick|thorough]
 
 import (
+	"os/exec"
+	"regexp"
 	"encoding/json"
 	"flag"
 	"fmt"
@@ -264,6 +266,10 @@ func runCheck(repo, vdir, prop, tier string, verbose, updateBaseline, writeEvide
 	var samples []any
 	solverTime := map[string]float64{}
 	replayDir := filepath.Join(vdir, "replay", prop)
+	if os.Getenv("GOVC_NESTED") != "" {
+		// a run of the must-fail corpus: its replays are not those of the tree under check
+		replayDir = filepath.Join(scratch(), "nested_replay", prop)
+	}
 	for _, n := range order {
 		g := groups[n]
 		ob0 := obls[g.Instances[0]]
@@ -346,6 +352,42 @@ func runCheck(repo, vdir, prop, tier string, verbose, updateBaseline, writeEvide
 		}
 		boundedReport = append(boundedReport, map[string]any{"name": bc.Name, "level": "bounded", "bound": bc.Bound, "stands_for": bc.StandsFor, "test": bc.Test, "status": status})
 	}
+	// thorough tier only: (1) the bounded histories registered for this property are all run on
+	// the tree as it is (not only as replays of a failed obligation); (2) the must-fail corpus
+	// of this property is run on scratch copies of the tree: the check must report each of them
+	var historyReport, corpusReport []any
+	if tier == "thorough" && os.Getenv("GOVC_NESTED") == "" {
+		var idx []scenarioEntry
+		loadJSON(filepath.Join(vdir, "scenarios", "index.json"), &idx)
+		seen := map[string]bool{}
+		for _, sc := range idx {
+			if !hasProp(sc.Props, prop) || seen[sc.File+"/"+sc.Test] || sc.NoHistory {
+				continue
+			}
+			seen[sc.File+"/"+sc.Test] = true
+			out, failed, built := goTestOverlay(repo, sc.Pkg, filepath.Join(vdir, "scenarios", sc.File), sc.Test, sc.Race)
+			if failed {
+				// timing-dependent histories: a failure counts only when it repeats
+				out, failed, built = goTestOverlay(repo, sc.Pkg, filepath.Join(vdir, "scenarios", sc.File), sc.Test, sc.Race)
+			}
+			status := "held"
+			if !built {
+				status = "did-not-build"
+			} else if failed {
+				status = "violated"
+				if kf := matchKnownScenario(known, prop, sc.Obligation); kf != nil {
+					status = "known-finding"
+				} else {
+					os.MkdirAll(replayDir, 0o755)
+					path := filepath.Join(replayDir, "history_"+sanitize(sc.Test)+".replay.txt")
+					os.WriteFile(path, []byte(fmt.Sprintf("bounded history %s (%s)\nfails on the real code:\n%s\n", sc.Test, sc.What, tail(out, 3000))), 0o644)
+					violations = append(violations, fmt.Sprintf("VIOLATION property=%s replay=%s", prop, path))
+				}
+			}
+			historyReport = append(historyReport, map[string]any{"test": sc.Test, "what": sc.What, "level": "bounded history", "status": status})
+		}
+		corpusReport = runCorpus(repo, vdir, prop)
+	}
 	for _, l := range knownPrinted {
 		fmt.Println(l)
 	}
@@ -419,6 +461,8 @@ func runCheck(repo, vdir, prop, tier string, verbose, updateBaseline, writeEvide
 				"abstractions_exercised": abstr,
 				"vacuity_guards":        reach,
 				"bounded_checks":        boundedReport,
+				"bounded_histories":     historyReport,
+				"must_fail_corpus":      corpusReport,
 				"known_findings_printed": knownPrinted,
 				"spec_functions_used":   sortedKeys(x.UsedSpecs),
 				"not_decided":           pc.Notes,
@@ -490,4 +534,66 @@ func stableName(kind string) bool {
 		return true
 	}
 	return false
+}
+
+// matchKnownScenario: a history whose obligation class contains a listed known finding.
+func matchKnownScenario(known []KnownFinding, prop, oblRe string) *KnownFinding {
+	re, err := regexp.Compile(oblRe)
+	if err != nil {
+		return nil
+	}
+	for i := range known {
+		k := &known[i]
+		if k.Status == "known" && k.Property == prop && re.MatchString(k.Obligation) {
+			return k
+		}
+	}
+	return nil
+}
+
+// runCorpus: the must-fail corpus of a property (seeded changes and the reverse patches of
+// repaired defects) is applied, one at a time, to a scratch copy of the tree; the check is
+// expected to report each.  A miss is a weakness of the machinery, recorded in the evidence;
+// it is not a violation of the property on the tree under check.
+func runCorpus(repo, vdir, prop string) []any {
+	var out []any
+	var dirs []string
+	for _, sub := range []string{"seeded", "findings"} {
+		ents, _ := os.ReadDir(filepath.Join(vdir, sub))
+		for _, e := range ents {
+			if e.IsDir() && strings.HasPrefix(e.Name(), prop+"_") {
+				dirs = append(dirs, filepath.Join(vdir, sub, e.Name()))
+			}
+		}
+	}
+	self, _ := os.Executable()
+	for _, d := range dirs {
+		patch := filepath.Join(d, "patch.diff")
+		if _, err := os.Stat(patch); err != nil {
+			continue
+		}
+		scratchDir, err := os.MkdirTemp("", "govc_corpus_")
+		if err != nil {
+			continue
+		}
+		rec := map[string]any{"item": filepath.Base(filepath.Dir(d)) + "/" + filepath.Base(d)}
+		cp := exec.Command("cp", "-a", repo+"/.", scratchDir)
+		if err := cp.Run(); err != nil {
+			rec["status"] = "copy failed"
+		} else if ap := exec.Command("git", "apply", "--exclude=*/contracts_verif.go", patch); func() bool { ap.Dir = scratchDir; return ap.Run() != nil }() {
+			rec["status"] = "patch does not apply to the tree under check"
+		} else {
+			c := exec.Command(self, "check", "-prop", prop, "-repo", scratchDir, "-verif", vdir, "-tier", "quick", "-no-evidence")
+			c.Env = append(os.Environ(), "GOVC_NESTED=1")
+			o, _ := c.CombinedOutput()
+			if strings.Contains(string(o), "VIOLATION property="+prop) {
+				rec["status"] = "reported"
+			} else {
+				rec["status"] = "MISSED"
+			}
+		}
+		os.RemoveAll(scratchDir)
+		out = append(out, rec)
+	}
+	return out
 }
